@@ -1,6 +1,7 @@
 package interpreter
 
 import (
+	"math/big"
 	"slices"
 
 	"github.com/formancehq/numscript/internal/parser"
@@ -99,7 +100,9 @@ func (st *programState) runBalancesQuery() error {
 		})
 		for asset, amount := range accountBalances {
 			if _, ok := cached[asset]; !ok {
-				cached[asset] = amount
+				// copy: the cache is updated in place while statements run,
+				// the store's own numbers must not be
+				cached[asset] = new(big.Int).Set(amount)
 			}
 		}
 	}
